@@ -22,7 +22,7 @@ Definition pinned_checker : list string := [
   "    if type_error:";
   "        raise type_error";
   "    violation_error = _assert_preconditions(preconditions=preconditions, resolved_kwargs=resolved_kwargs)";
-  "    if violation_error:";
+  "    if violation_error is not None:";
   "        raise violation_error";
   "    if postconditions and snapshots:";
   "        resolved_kwargs['OLD'] = _capture_old(resolved_kwargs=resolved_kwargs, snapshots=snapshots)";
@@ -32,7 +32,7 @@ Definition pinned_checker : list string := [
   "    if postconditions:";
   "        resolved_kwargs['result'] = result";
   "        violation_error = _assert_postconditions(postconditions=postconditions, resolved_kwargs=resolved_kwargs)";
-  "        if violation_error:";
+  "        if violation_error is not None:";
   "            raise violation_error";
   "    return result";
   "finally:";
